@@ -56,11 +56,12 @@ SECURITY_FNS = ["has_permission", "apply_if_auth", "apply_to_database_name_if_ha
 
 PROPS = {
     "C01": dict(
-        units=["store", "listing", "snapshot", "replies", "parser"],
+        units=["store", "listing", "snapshot", "replies", "parser", "consensus"],
         kani=[K_PATTERN_CHOICE],
         undecided=["the command-word table of Request::parse (a lazy_static HashMap of fn pointers) and std's splitn; the per-command parsers of the data commands ARE verified against "
-                   "what each command line means (unit parser: C01.parse-*), and the dispatcher arms of the WRITING commands (set / set-safe / remove / increment: their closures "
-                   "mutate through a shared &Database, which a Verus closure cannot express) - the reading arms Get / GetSafe / Keys are verified with their closure bodies (unit replies)",
+                   "what each command line means (unit parser: C01.parse-*); the dispatcher arms are verified in two halves that R10 / R10b cut apart and that only the extraction rule "
+                   "joins again: guard usage with the closure abstracted (unit dispatch) and the closure body - kept in place for the reading arms (unit replies), lifted to a function "
+                   "for set / remove / increment (unit consensus: op_set, op_remove, op_increment)",
                    "`keys`: String's ordering (the meaning of 'sorted') is an uninterpreted total order; the Keys arm of the dispatcher (which list_system_keys flag it passes) is "
                    "covered by the bounded sweep only"],
         assumptions=["Display for Value prints its value field (trusted axiom; impl at bo.rs is compiled but not verified)",
@@ -241,7 +242,7 @@ PROPS = {
                    "ReplicationMessage::count_replication", "ReplicationMessage::count_acknowledged", "ReplicationMessage::get_copy", "Databases::register_pending_opp",
                    "Databases::acknowledge_pending_opp", "Databases::get_pending_opp_copy"],
                    "parser": PARSER_FNS, "sessions": ["Database::inc_connections", "Database::dec_connections", "Database::connections_count", "release_previous_db",
-                   "Client::left", "Client::selected_db_name", "arm_use_db"], "oplog": ["read_operations_since", "read_operations_since_from_file", "Oplog::last_op_time", "Oplog::write_op_log", "ReplicateOpp::to_u8", "From<u8>@ReplicateOpp::from", "OpLogRecord::new"], "ids": ["generate_key_id", "create_temp_db", "Databases::add_database", "Databases::next_db_id"], "consensus": ["Database::try_resolve_conflict_response", "apply_change_to_db_try_fix_conflicts",
+                   "Client::left", "Client::selected_db_name", "arm_use_db"], "oplog": ["read_operations_since", "read_operations_since_from_file", "Oplog::last_op_time", "Oplog::write_op_log", "ReplicateOpp::to_u8", "From<u8>@ReplicateOpp::from", "OpLogRecord::new"], "ids": ["generate_key_id", "create_temp_db", "Databases::add_database", "Databases::next_db_id"], "consensus": ["op_set", "op_remove", "op_increment", "Database::try_resolve_conflict_response", "apply_change_to_db_try_fix_conflicts",
                    "set_key_value", "Database::resolve_conflit", "Database::has_arbiter_connected", "Change::new"]},
         undecided=["transport loops, dispatcher unwraps (e.g. try_send(..).unwrap() in the rp arm), lock poisoning propagation",
                    "Request::parse's table lookup (lazy_static HashMap of fn pointers) and the two snapshot parsers (iterator pipelines) are not verified",
